@@ -1327,7 +1327,7 @@ func init() {
 		ID: "C06", Imports: "V.Lib V.C06_Model", Judge: "judge",
 		Rule: "cases = net.SplitHostPort strings; caskettls.MakeTLSConfig(configs).GetConfigForClient(hello) on config sets x SNI x default-sni x local address " +
 			"(governing config by pointer identity, its tls.Config fields); SetDefaultTLSParams; the real tls directive setup; httpserver.NewServer + " +
-			"ServeHTTP with crossed SNI/Host (local address of the connection in the request context), a stream without SNI against catch-all, local-address and named sites x default-sni; casket.Start + real loopback TLS handshakes (negotiated version, certificate request, response). " +
+			"ServeHTTP with crossed SNI/Host (local address of the connection in the request context), a stream without SNI against catch-all, local-address and named sites x default-sni; casket.Start + real loopback TLS handshakes (negotiated version, certificate request, response; without SNI also under a default server name); TLS/plaintext mixes with the plaintext, TLS or nil entry first for MakeTLSConfig, NewServer and casket.Start. " +
 			"non-trivial = lookup with >=2 configs, split string containing ':[ ]', setup with sub-directives, serve on a TLS connection with a site " +
 			"that demands client certificates, every handshake; distinct = distinct Coq case term",
 		Gen: c06Gen,
